@@ -36,7 +36,7 @@ MC_CONSTS = """  Pkgs <- MCPkgs
 def mc_cfg(maxplan):
     return (f"SPECIFICATION Spec\nCONSTANTS\n  MaxPlan = {maxplan}\n{MC_CONSTS}CONSTRAINT Bound\n"
             "INVARIANT InvReplay\nINVARIANT InvRefcnt\nINVARIANT InvLimiters\nINVARIANT InvRevSum\nINVARIANT InvChoices\n"
-            "PROPERTY RollbackExact\n")
+            "PROPERTY RollbackExact\nPROPERTY CutExact\n")
 
 
 def sim_cfg(maxplan, d):
@@ -162,10 +162,22 @@ class World:
                 ret = rs.add_hardref_op(a["r"]).apply(ps)
             elif ev == "backref":
                 ret = rs.add_backref_op(self.choices[a["c"]], self.pkgs[a["p"]]).apply(ps)
+            elif ev == "backtrack" and a.get("fault"):
+                # the rollback is interrupted when plan entry number `fault` is about to be reverted
+                k = a["fault"] - 1
+                ps.plan[k] = _Interrupting(ps.plan[k])
+                try:
+                    ret = ps.backtrack(a["pos"])
+                finally:
+                    for j, x in enumerate(ps.plan):
+                        if isinstance(x, _Interrupting):
+                            ps.plan[j] = x.op
             elif ev == "backtrack":
                 ret = ps.backtrack(a["pos"])
             else:
                 raise ValueError(ev)
+        except _Interrupt:
+            raised = "Interrupt"
         except Exception as e:  # the op itself failed: logged, judged by the trace spec
             raised = type(e).__name__
         names = sorted(getattr(x, "name", str(x)) for x in (ret or ()))
@@ -203,11 +215,30 @@ class World:
         for pos in range(n):
             acts.append(dict(ev="backtrack", pos=pos))
             acts.append(dict(ev="backtrack", pos=pos))
+            if n - pos >= 1:
+                acts.append(dict(ev="backtrack", pos=pos, fault=r_.randint(pos + 1, n)))
         return acts
 
 
+class _Interrupt(BaseException):
+    """stands for KeyboardInterrupt / MemoryError arriving during a rollback"""
+
+
+class _Interrupting:
+    """plan entry whose revert is interrupted before it does anything"""
+
+    def __init__(self, op):
+        self.op = op
+
+    def revert(self, plan):
+        raise _Interrupt()
+
+    def __getattr__(self, name):
+        return getattr(self.op, name)
+
+
 def full(a):
-    out = dict(ev=a["ev"], c="-", p="-", force=False, b="-", r="-", pos=0)
+    out = dict(ev=a["ev"], c="-", p="-", force=False, b="-", r="-", pos=0, fault=0)
     out.update(a)
     return out
 
@@ -235,7 +266,7 @@ def run_history(world, tid, actions, events, choose=None, steps=0, r_=None):
         hist.append(a)
         if st.pop("slots_dupes"):
             break  # leaves the modelled domain (cannot happen with the generators used)
-        if raised:
+        if raised and not a["fault"]:
             break  # state after an internal error is not followed further
     return hist
 
